@@ -89,6 +89,10 @@ func (g *rng) genValueArg() garg {
 	if g.chance(1, 4) {
 		return garg{kind: "str", s: g.text(8, false)}
 	}
+	if g.chance(1, 40) {
+		// a few KiB of binary data (every byte needs a four-byte escape): longer than any buffer estimate of twice its size
+		return garg{kind: "str", s: strings.Repeat(string([]byte{0, 0x7f, 0xff, 0x1b}), 600+g.intn(1500))}
+	}
 	for {
 		v := g.genScalar(false)
 		if v.kind == "string" {
@@ -352,6 +356,14 @@ func c02WriterOrder(r *run) {
 			l.SetErrorWriter(c01Broken{})
 			l.AddErrorWriter(curE)
 			how += "; a failing destination put in front of each class list"
+		}
+		if round%6 != 5 {
+			// the normal destination registered a second time and taken away once: it is still registered once
+			l.AddWriter(wantNormal.rec)
+			l.RemoveWriter(wantNormal.rec)
+			l.AddErrorWriter(e.rec)
+			l.RemoveErrorWriter(e.rec)
+			how += "; AddWriter(the normal one again); RemoveWriter(it); AddErrorWriter(e again); RemoveErrorWriter(e)"
 		}
 		if round%2 == 0 {
 			// a writer of its own for one severity, dropped again by the reset for that severity alone: the class writers apply
